@@ -188,6 +188,7 @@ func (s *Service) Update(ctx context.Context, pipelineID string, cfg Config) (*I
 		return nil, err
 	}
 
+	oldCfg, oldUpdatedAt := pl.Config, pl.UpdatedAt
 	delete(s.instanceNames, pl.Config.Name) // delete the old name
 	pl.Config = cfg
 	pl.UpdatedAt = time.Now()
@@ -195,6 +196,10 @@ func (s *Service) Update(ctx context.Context, pipelineID string, cfg Config) (*I
 	s.instanceNames[cfg.Name] = true
 	err = s.store.Set(ctx, pl.ID, pl)
 	if err != nil {
+		// the change did not reach the store: take it back in memory too
+		delete(s.instanceNames, cfg.Name)
+		pl.Config, pl.UpdatedAt = oldCfg, oldUpdatedAt
+		s.instanceNames[oldCfg.Name] = true
 		return nil, cerrors.Errorf("failed to save pipeline with ID %q: %w", pl.ID, err)
 	}
 
@@ -221,10 +226,13 @@ func (s *Service) UpdateDLQ(ctx context.Context, pipelineID string, cfg DLQ) (*I
 		return nil, cerrors.New("DLQ window nack threshold must be lower than window size")
 	}
 
+	oldDLQ, oldUpdatedAt := pl.DLQ, pl.UpdatedAt
 	pl.DLQ = cfg
 	pl.UpdatedAt = time.Now()
 	err = s.store.Set(ctx, pl.ID, pl)
 	if err != nil {
+		// the change did not reach the store: take it back in memory too
+		pl.DLQ, pl.UpdatedAt = oldDLQ, oldUpdatedAt
 		return nil, cerrors.Errorf("failed to save pipeline with ID %q: %w", pl.ID, err)
 	}
 
@@ -237,10 +245,13 @@ func (s *Service) AddConnector(ctx context.Context, pipelineID string, connector
 	if err != nil {
 		return nil, err
 	}
-	pl.ConnectorIDs = append(pl.ConnectorIDs, connectorID)
+	oldIDs, oldUpdatedAt := pl.ConnectorIDs, pl.UpdatedAt
+	pl.ConnectorIDs = append(pl.ConnectorIDs[:len(pl.ConnectorIDs):len(pl.ConnectorIDs)], connectorID)
 	pl.UpdatedAt = time.Now()
 	err = s.store.Set(ctx, pl.ID, pl)
 	if err != nil {
+		// the change did not reach the store: take it back in memory too
+		pl.ConnectorIDs, pl.UpdatedAt = oldIDs, oldUpdatedAt
 		return nil, cerrors.Errorf("failed to save pipeline with ID %q: %w", pl.ID, err)
 	}
 
@@ -264,11 +275,19 @@ func (s *Service) RemoveConnector(ctx context.Context, pipelineID string, connec
 		return nil, cerrors.Errorf("%w (ID: %s)", ErrConnectorIDNotFound, connectorID)
 	}
 
-	pl.ConnectorIDs = pl.ConnectorIDs[:connectorIndex+copy(pl.ConnectorIDs[connectorIndex:], pl.ConnectorIDs[connectorIndex+1:])]
+	oldIDs, oldUpdatedAt := pl.ConnectorIDs, pl.UpdatedAt
+	// build a new slice instead of shifting the old one in place, so that
+	// the old list is still intact if the store write fails
+	newIDs := make([]string, 0, len(oldIDs)-1)
+	newIDs = append(newIDs, oldIDs[:connectorIndex]...)
+	newIDs = append(newIDs, oldIDs[connectorIndex+1:]...)
+	pl.ConnectorIDs = newIDs
 	pl.UpdatedAt = time.Now()
 
 	err = s.store.Set(ctx, pl.ID, pl)
 	if err != nil {
+		// the change did not reach the store: take it back in memory too
+		pl.ConnectorIDs, pl.UpdatedAt = oldIDs, oldUpdatedAt
 		return nil, cerrors.Errorf("failed to save pipeline with ID %q: %w", pl.ID, err)
 	}
 
@@ -281,10 +300,13 @@ func (s *Service) AddProcessor(ctx context.Context, pipelineID string, processor
 	if err != nil {
 		return nil, err
 	}
-	pl.ProcessorIDs = append(pl.ProcessorIDs, processorID)
+	oldIDs, oldUpdatedAt := pl.ProcessorIDs, pl.UpdatedAt
+	pl.ProcessorIDs = append(pl.ProcessorIDs[:len(pl.ProcessorIDs):len(pl.ProcessorIDs)], processorID)
 	pl.UpdatedAt = time.Now()
 	err = s.store.Set(ctx, pl.ID, pl)
 	if err != nil {
+		// the change did not reach the store: take it back in memory too
+		pl.ProcessorIDs, pl.UpdatedAt = oldIDs, oldUpdatedAt
 		return nil, cerrors.Errorf("failed to save pipeline with ID %q: %w", pl.ID, err)
 	}
 
@@ -308,11 +330,19 @@ func (s *Service) RemoveProcessor(ctx context.Context, pipelineID string, proces
 		return nil, cerrors.Errorf("%w (ID: %s)", ErrProcessorIDNotFound, processorID)
 	}
 
-	pl.ProcessorIDs = pl.ProcessorIDs[:processorIndex+copy(pl.ProcessorIDs[processorIndex:], pl.ProcessorIDs[processorIndex+1:])]
+	oldIDs, oldUpdatedAt := pl.ProcessorIDs, pl.UpdatedAt
+	// build a new slice instead of shifting the old one in place, so that
+	// the old list is still intact if the store write fails
+	newIDs := make([]string, 0, len(oldIDs)-1)
+	newIDs = append(newIDs, oldIDs[:processorIndex]...)
+	newIDs = append(newIDs, oldIDs[processorIndex+1:]...)
+	pl.ProcessorIDs = newIDs
 	pl.UpdatedAt = time.Now()
 
 	err = s.store.Set(ctx, pl.ID, pl)
 	if err != nil {
+		// the change did not reach the store: take it back in memory too
+		pl.ProcessorIDs, pl.UpdatedAt = oldIDs, oldUpdatedAt
 		return nil, cerrors.Errorf("failed to save pipeline with ID %q: %w", pl.ID, err)
 	}
 
